@@ -85,6 +85,12 @@ func modelProgram(prog []refmodel.Stmt, strict bool) *mResult {
 				}
 				walk(s.Body, prefix+refmodel.Norm(s.Prefix, strict), cat(group, mw...), true)
 			case "route":
+				if s.Via == "dup" {
+					// the same method and path were registered once before, with one middleware and another handler:
+					// the later definition replaces the earlier one
+					ids.Take(1)
+					ids.Take(1)
+				}
 				mids := ids.Take(s.K)
 				main := ids.Take(1)
 				later := ids.Take(s.K2)
@@ -234,6 +240,10 @@ func execProgram(prog []refmodel.Stmt, sentinel, strict bool, more ...func(*rux.
 					r.Group(s.Prefix, func() { walk(body, false) }, mw...)
 					gprefix = saved
 				case "route":
+					var dupMW, dupMain []rux.HandlerFunc
+					if s.Via == "dup" {
+						dupMW, dupMain = mk(1), mkMain(1)
+					}
 					mids := mk(s.K)
 					main := mkMain(1)
 					later := mk(s.K2)
@@ -252,6 +262,9 @@ func execProgram(prog []refmodel.Stmt, sentinel, strict bool, more ...func(*rux.
 					case "attach":
 						rt = rux.NewRoute(path, main[0], "GET").Use(mids...)
 						rt.AttachTo(r)
+					case "dup":
+						r.GET(path, dupMain[0], dupMW...)
+						rt = r.GET(path, main[0], mids...)
 					default:
 						rt = r.GET(path, main[0], mids...)
 					}
@@ -311,7 +324,7 @@ func progString(prog []refmodel.Stmt) string {
 				w(s.Body)
 				sb.WriteString("}")
 			case "route":
-				fmt.Fprintf(&sb, "Route%s(mw=%d,laterUse=%d)", map[string]string{"": "", "any": ":Any", "attach": ":NewRoute+Use+AttachTo", "echo": ":own-path-repeats-the-group-prefix", "slash": ":path-ends-in-a-slash"}[s.Via], s.K, s.K2)
+				fmt.Fprintf(&sb, "Route%s(mw=%d,laterUse=%d)", map[string]string{"": "", "any": ":Any", "attach": ":NewRoute+Use+AttachTo", "echo": ":own-path-repeats-the-group-prefix", "slash": ":path-ends-in-a-slash", "dup": ":registered-a-second-time-for-the-same-method-and-path"}[s.Via], s.K, s.K2)
 			case "controller", "resource":
 				fmt.Fprintf(&sb, "%s(%q,mw=%d)", s.Kind, s.Prefix, s.K)
 			default:
@@ -679,6 +692,16 @@ func progSpecials() [][]refmodel.Stmt {
 		return refmodel.Stmt{Kind: "group", Prefix: prefix, K: k, Body: body}
 	}
 	var out [][]refmodel.Stmt
+	// a fixed path registered a second time for the same method (the later definition is the route)
+	for _, kk := range [][2]int{{0, 0}, {1, 0}, {0, 1}, {1, 1}, {2, 2}} {
+		dup := refmodel.Stmt{Kind: "route", K: kk[0], K2: kk[1], Via: "dup"}
+		out = append(out,
+			[]refmodel.Stmt{dup},
+			[]refmodel.Stmt{use, dup, route},
+			[]refmodel.Stmt{g("/g", 1, dup, route1), dup},
+			[]refmodel.Stmt{g("/g", 2, use, dup), g("/h", 0, dup)},
+		)
+	}
 	for _, k := range []int{1, 2, 3} {
 		out = append(out,
 			[]refmodel.Stmt{sh("/s1", k, route), g("/g", 0, use, route), sh("/s2", k, route)},
